@@ -145,6 +145,12 @@ void count(const char* name, uint64_t n = 1);
 // Marks the run as non-trivial (did at least one state-changing operation / fault fired where required).
 void mark_nontrivial();
 void add_steps(uint64_t n);
+// Leaves a breadcrumb for the runner: "key=value key=value ..." pairs (integers) that, applied to the plan's cfg, narrow
+// the plan to the sub-run that is about to execute (used by enumerating scenarios such as the C15 fault sweep). If the
+// process dies or reports a violation the runner patches the plan with the last breadcrumb before reproducing.
+void breadcrumb(const char* kv);
+// Extra evaluations performed inside one run (sub-runs of an enumerating scenario), reported in the evidence.
+void add_subruns(uint64_t n, uint64_t distinct_nontrivial);
 
 // Reports a property violation for the current run and terminates the process (no unwinding - the objects under test
 // may be corrupt). `cls` names the violation class (oracle[@site]); `fmt...` is the human readable detail.
@@ -170,6 +176,12 @@ uint64_t run_request_count(uint8_t kind);
 uint64_t run_fault_fired_count(uint8_t kind);
 uint64_t run_faults_fired_total();
 size_t current_op_index();
+// Call stacks (return addresses) of the faults that fired during this run, oldest first (at most 64 are kept;
+// `fired_fault_stacks_overflowed()` tells when more fired). `stack_has_function` symbolises lazily (sanitizer flavours
+// only; returns false elsewhere) and tells whether any frame's function name contains `needle`.
+const std::vector<std::vector<void*>>& fired_fault_stacks();
+bool fired_fault_stacks_overflowed();
+bool stack_has_function(const std::vector<void*>& pcs, const char* needle);
 // Probabilistic fault mode (multi-fault patterns): each request of kind k fails with probability num/den, drawn from
 // the run's "fault" stream. Reset by begin_run.
 void set_fault_probability(uint8_t kind, uint32_t num, uint32_t den);
